@@ -362,6 +362,12 @@ func (vc *VC) get(st *State, name string, sort Sort) Term {
 	fresh := !vc.q.IsDeclared(cname)
 	t := vc.q.Declare(cname, sort)
 	st.mem[name] = t
+	if fresh && st.gen == 0 && name == "W_lockheld" {
+		vc.q.Raw(fmt.Sprintf("(assert (forall ((r Int) (p Path)) (! (not (select (select %s r) p)) :pattern ((select (select %s r) p)))))", cname, cname))
+	}
+	if fresh && st.gen == 0 && name == "W_lockcnt" {
+		vc.q.Raw(fmt.Sprintf("(assert (forall ((r Int) (p Path)) (! (= (select (select %s r) p) 0) :pattern ((select (select %s r) p)))))", cname, cname))
+	}
 	if fresh && st.gen == 0 && strings.HasPrefix(name, "W_cas_") && vc.casPre[name] {
 		// no CAS has been won at function entry
 		vc.q.Raw(fmt.Sprintf("(assert (forall ((r Int) (p Path)) (! (not (select (select %s r) p)) :pattern ((select (select %s r) p)))))", cname, cname))
